@@ -5,7 +5,7 @@ TraceInit == TraceInitTL /\ Init
 Pairs(q) == {<<q[i][1], q[i][2]>> : i \in 1..Len(q)}
 
 TStatus == /\ IsEvent("Status")
-           /\ Status(Ev.side, Ev.dir, Ev.mid, Ev.transferred, Ev.total, Ev.done, Ev.csize)
+           /\ Status(Ev.side, Ev.dir, Ev.mid, Ev.transferred, Ev.total, Ev.done, Ev.csize, Ev.complete)
            /\ Consume
 TEnd    == IsEvent("End") /\ End(Pairs(Ev.sent), Pairs(Ev.received)) /\ Consume
 TRace   == IsEvent("Race") /\ FALSE
